@@ -102,7 +102,9 @@ type env struct {
 }
 
 func pebbleOpts(fs vfs.FS) *cp.Options {
-	return &cp.Options{FS: fs, DisableAutomaticCompactions: true, MemTableSize: 1 << 20,
+	// automatic compactions are off (deterministic file-system operation counts for the crash mode); without them a
+	// store that never prunes would stall at pebble's L0 stop-writes threshold and hang the driver instead of being judged
+	return &cp.Options{FS: fs, DisableAutomaticCompactions: true, MemTableSize: 1 << 20, L0StopWritesThreshold: 1 << 30,
 		Cache: sharedCache, Logger: quietLogger{}}
 }
 
